@@ -145,7 +145,7 @@ CHECKS = {
         note="sibling agreement is a cross-check, not a proof of equal results: arms that differ only in arithmetic constants of the same operators are not distinguished",
         ref="DESIGN.md section 8.13"),
     "C17": dict(
-        technique="interval abstract interpretation of reconstruction-header fields to panicking operations; backward data-flow of unwrapped iterator searches; validation-check reconstruction from MIR against a reviewed table (through helper and predicate functions); symbolic carving of the data section; per-variant constant-propagating path rules for the status query; registry of repair guards (data-section completeness before slicing / before reporting Available); backward data-dependence slice of the ICC payload write on the marker's declared length",
+        technique="interval abstract interpretation of reconstruction-header fields to panicking operations; backward data-flow of unwrapped iterator searches; validation-check reconstruction from MIR against a reviewed table (through helper and predicate functions); symbolic carving of the data section; per-variant constant-propagating path rules for the status query; registry of repair guards (data-section completeness before slicing / before reporting Available); backward data-dependence slice of the ICC payload write on the marker's declared length; reachability walk (block x pending) for the correction-bit counter of the refinement scan",
         text="Claimed narrowly: the two clauses visible in the shape of the code. (1) jpeg_reconstruction_status reports Available only on the "
              "Data state of the jbrd box and after each piece of metadata the header expects (ICC, Exif, XMP) has been probed; "
              "reconstruct_jpeg refuses incomplete box states and a missing frame before unwrapping. (2) Hostile reconstruction data is an "
